@@ -1,4 +1,6 @@
 # C13 - query replies report the device's data verbatim
+import os
+import json
 import random
 
 from .. import env
@@ -32,7 +34,11 @@ RULE_ADDED = (
               ' '
               'Round 9: slow devices - the answers to one command or to all take 1..9 s of virt'
               "ual time, within the host's 10 s: every successful reply carries its own request"
-              "'s data. ")
+              "'s data. "
+              ' '
+              'Round 12: the manager in its own process (entry point, main thread) with a devic'
+              'e whose answers take 0.15 s, SIGTERM during a multi-exchange query: gone, or sti'
+              "ll answering with the device's data. ")
 RULE = RULE + " " + RULE_ADDED.strip()
 ASSUMPTIONS = [
     "simulated device + fake HID/TCP transports are trusted; firmware selectors are parsed "
@@ -98,8 +104,83 @@ def netids():
             for m in re.finditer(r"#define\s+(NETID_\w+)\s+(0x[0-9a-fA-F]+)", txt)}
 
 
+def signalled_manager(acc, rng):
+    """the manager as it is really started (own process, entry point on the main thread,
+    the real ledgerblue HID stack over the fake device), a device that takes 0.15 s per
+    exchange, and a SIGTERM (the usual way services are stopped) arriving while a
+    multi-exchange query is in flight.  Either the manager is gone - or whatever it still
+    answers is the device's data."""
+    import socket
+    import signal
+    import subprocess
+    import time
+    import sys
+    from . import c02, c03
+    ref = c02.make_device(random.Random(6))      # the child builds the same device
+    sock = socket.socket()
+    sock.bind(("127.0.0.1", 0))
+    port = sock.getsockname()[1]
+    sock.close()
+    envv = dict(os.environ, PYTHONHASHSEED="0", PYTHONDONTWRITEBYTECODE="1",
+                PV_SLOW_EXCHANGES="0.15")
+    child = subprocess.Popen([sys.executable, "-m", "pv.props.c03", "--manager-child",
+                              str(port), "0"], cwd=env.VERIF, env=envv,
+                             stdout=subprocess.DEVNULL, stderr=subprocess.DEVNULL)
+    case = {"kind": "signal"}
+    try:
+        t0 = time.time()
+        up = False
+        while time.time() - t0 < 30 and child.poll() is None:
+            if c03._client(port, b'{"command":"version"}\n'):
+                up = True
+                break
+            time.sleep(0.1)
+        if not up:
+            acc.notes.append("signalled manager did not come up")
+            return
+        acc.count("managers_signalled_during_an_exchange")
+        acc.evaluations += 1
+        res = {}
+
+        def ask():
+            res["state"] = c03._client(port, b'{"command":"blockchainState","version":5}\n',
+                                       timeout=30)
+        import threading
+        th = threading.Thread(target=ask, daemon=True)
+        th.start()
+        time.sleep(0.4 + rng.random() * 0.5)       # nine exchanges of 0.15 s are under way
+        child.send_signal(signal.SIGTERM)
+        th.join(40)
+        time.sleep(0.3)
+        for p in rng.sample(ALL_PATHS, 3):
+            if child.poll() is not None:
+                acc.count("managers_gone_after_the_signal")
+                return
+            out = c03._client(port, json.dumps({"command": "getPubKey", "version": 5,
+                                                "keyId": p}).encode() + b"\n", timeout=30)
+            if not out:
+                continue
+            try:
+                reply = json.loads(out.decode())
+            except Exception:
+                acc.violation("after-signal:unparseable-reply", {"out": repr(out)[:100]}, case)
+                return
+            acc.count("replies_judged_after_a_signal")
+            if reply.get("errorcode") == 0 and \
+                    reply.get("pubKey") != ref.pubkeys[path_to_binary(p)].hex():
+                acc.violation("after-signal:reply-0-with-data-of-another-exchange:getPubKey",
+                              {"reply": str(reply)[:200], "path": p}, case)
+                return
+    finally:
+        if child.poll() is None:
+            child.kill()
+        child.wait(10)
+
+
 def run_shard(spec, acc):
     env.setup()
+    if spec["seed"] % 1000 in (3, 11):
+        signalled_manager(acc, random.Random(spec["seed"]))
     from ..stack import Stack
     from ..simdev.device import SimDevice
     rng = random.Random(spec["seed"])
